@@ -24,7 +24,7 @@ const c12Size, c12Rcpt = 1000, 3
 // refCaps: the capability lines the configuration calls for (RFC names).
 func refCaps(c C12Case, tlsActive bool) []string {
 	caps := []string{"PIPELINING", "8BITMIME", "ENHANCEDSTATUSCODES", "CHUNKING"}
-	if (c.TLSRoute == "available" || c.TLSRoute == "starttls") && !tlsActive {
+	if (c.TLSRoute == "available" || c.TLSRoute == "starttls" || c.TLSRoute == "failed-handshake") && !tlsActive {
 		caps = append(caps, "STARTTLS")
 	}
 	if (tlsActive || c.Cfg.AllowInsecureAuth) && c.AuthBE {
@@ -63,7 +63,7 @@ func evalC12(c C12Case) *h.Finding {
 	var f *h.Finding
 	desc := fmt.Sprintf("config %+v route=%s authbackend=%t", c.Cfg, c.TLSRoute, c.AuthBE)
 	cfg := c.Cfg
-	cfg.TLSAvailable = c.TLSRoute == "available" || c.TLSRoute == "starttls"
+	cfg.TLSAvailable = c.TLSRoute == "available" || c.TLSRoute == "starttls" || c.TLSRoute == "failed-handshake"
 	be := &h.Backend{Auth: c.AuthBE, Mechs: saslMechs, NewSASL: newSASL}
 	fail := func(sig, format string, a ...interface{}) {
 		if f == nil {
@@ -106,6 +106,16 @@ func evalC12(c C12Case) *h.Finding {
 				return
 			}
 			tlsActive = true
+		}
+		if c.TLSRoute == "failed-handshake" {
+			// STARTTLS is answered 220, the client then sends something that is no TLS handshake: the
+			// connection stays plaintext and must be advertised and treated as such
+			one(verb + " pre.example")
+			if r := one("STARTTLS"); r.Code != 220 {
+				fail("c12-starttls-refused", "STARTTLS is configured but was answered %s", r.String())
+				return
+			}
+			live.Send([]byte("hello"))
 		}
 		// HELO lists nothing
 		if !cfg.LMTP {
@@ -282,7 +292,7 @@ func C12(tier string) int {
 	for flags := 0; flags < 32; flags++ {
 		for _, size := range []int64{0, c12Size} {
 			for _, rc := range []int{0, c12Rcpt} {
-				for _, route := range []string{"none", "available", "implicit", "starttls"} {
+				for _, route := range []string{"none", "available", "implicit", "starttls", "failed-handshake"} {
 					for _, ins := range []bool{false, true} {
 						for _, abe := range []bool{false, true} {
 							for _, lmtp := range []bool{false, true} {
@@ -295,7 +305,7 @@ func C12(tier string) int {
 			}
 		}
 	}
-	run.Rule = fmt.Sprintf("the COMPLETE configuration space: 5 extension flags x size limit {0,%d} x recipient limit {0,%d} x TLS {none, available, active via implicit TLS, active via STARTTLS} x AllowInsecureAuth x backend {auth-capable, plain} x {SMTP, LMTP} = %d configurations (the statement's 3072 plus the second route to TLS-active). Each is one lock-step conversation with the real server (real TLS handshakes, in a synctest bubble): HELO, EHLO/LHLO keyword set compared with an independent capability function, then one probe per extension (8BITMIME, SMTPUTF8, REQUIRETLS, BINARYMIME, RET, ENVID, SIZE within/above, NOTIFY, ORCPT, RRVS, recipients up to limit+1, BDAT, AUTH, STARTTLS and the capability list after it). states = configurations; transitions = commands sent. Non-trivial: all.", c12Size, c12Rcpt, len(cases))
+	run.Rule = fmt.Sprintf("the COMPLETE configuration space: 5 extension flags x size limit {0,%d} x recipient limit {0,%d} x TLS {none, available, active via implicit TLS, active via STARTTLS, available but the handshake after STARTTLS failed (still plaintext)} x AllowInsecureAuth x backend {auth-capable, plain} x {SMTP, LMTP} = %d configurations (the statement's 3072 plus the second route to TLS-active and the failed-handshake route). Each is one lock-step conversation with the real server (real TLS handshakes, in a synctest bubble): HELO, EHLO/LHLO keyword set compared with an independent capability function, then one probe per extension (8BITMIME, SMTPUTF8, REQUIRETLS, BINARYMIME, RET, ENVID, SIZE within/above, NOTIFY, ORCPT, RRVS, recipients up to limit+1, BDAT, AUTH, STARTTLS and the capability list after it). states = configurations; transitions = commands sent. Non-trivial: all.", c12Size, c12Rcpt, len(cases))
 	run.Assumptions = []string{"REQUIRETLS enabled by configuration but probed outside TLS (not advertised there) is not judged: the statement fixes only 'advertised => accepted' and 'disabled by configuration => 504'"}
 	h.ParallelFor(len(cases), func(i int) {
 		if run.Expired() {
